@@ -151,7 +151,10 @@ fn main() {
       h::util::write_json(&args[3], &json!({"guided": guided, "random": nrand, "steps": steps, "with_issues": outs.len(), "outcomes": outs.into_iter().take(100).collect::<Vec<_>>()}));
     }
     "sock" => {
-      // vh sock <scenarios.jsonl> <out.jsonl>
+      // vh sock <scenarios.jsonl> <out.jsonl>   (VH_TRACE=<filter> prints rzmq's tracing output to stderr)
+      if let Ok(f) = std::env::var("VH_TRACE") {
+        let _ = tracing_subscriber::fmt().with_env_filter(f).with_writer(std::io::stderr).try_init();
+      }
       h::sock::run_file(&args[2], &args[3]);
     }
     "sockscript" => {
@@ -175,6 +178,21 @@ fn main() {
         }
       }
       h::util::write_json(&args[3], &json!({"runs": beh.len(), "with_issues": outs.len(), "outcomes": outs.into_iter().take(100).collect::<Vec<_>>()}));
+    }
+    "backoff" => {
+      // vh backoff <behaviours.jsonl> <out.json> [--perturb]
+      let beh: Vec<h::backoff::Behaviour> = h::util::read_jsonl(&args[2]);
+      let perturb = args.iter().any(|a| a == "--perturb");
+      let mut outs = Vec::new();
+      let mut steps = 0usize;
+      for (i, b) in beh.iter().enumerate() {
+        steps += b.steps.len();
+        let o = h::backoff::run(i, b, perturb);
+        if !o.issues.is_empty() {
+          outs.push(serde_json::to_value(&o).unwrap());
+        }
+      }
+      h::util::write_json(&args[3], &json!({"runs": beh.len(), "steps": steps, "with_issues": outs.len(), "outcomes": outs.into_iter().take(100).collect::<Vec<_>>()}));
     }
     "sec" => {
       // vh sec <behaviours.jsonl> <out.json> [--perturb]
